@@ -131,14 +131,18 @@ def r06_2(ctx):
                 return None
             return bk.BrownianHooks.on_call(self, interp, callee, args, kwargs, node, fi)
 
-    queue = {"midway > interval._midway": [True, False], "midway < interval._midway": [False, False, False],
-             "midway > self._midway": [True, False], "midway < self._midway": [False, False, False]}
+    # scripted answers for the descent's tests `<requested point> >/< <node>._midway`, whatever the node variable is called:
+    # first go right once, then stop
+    queue = {">": [True, False], "<": [False, False, False]}
 
     class H2(H):
         def decide(self, interp, test, env, fi):
-            t = ast.unparse(test)
-            if t in queue and queue[t]:
-                return queue[t].pop(0)
+            if isinstance(test, ast.Compare) and len(test.ops) == 1 and isinstance(test.ops[0], (ast.Gt, ast.Lt)) and \
+                    isinstance(test.left, ast.Name) and isinstance(test.comparators[0], ast.Attribute) and \
+                    test.comparators[0].attr == "_midway":
+                k = ">" if isinstance(test.ops[0], ast.Gt) else "<"
+                if queue[k]:
+                    return queue[k].pop(0)
             return bk.BrownianHooks.decide(self, interp, test, env, fi)
     hooks = H2()
     it = Interp(model, hooks)
